@@ -192,7 +192,7 @@ m('get-late-reserve-keeps-size', 'R03a', DISK,
   '''		unreserve = true
 	}
 ''')
-m('get-proxy-no-maxsize', 'R12d,R18d', DISK,
+m('get-proxy-no-maxsize', 'R12d', DISK,
   '''	if foundSize > c.maxProxyBlobSize {
 		_ = r.Close()
 		return nil, -1, nil
